@@ -146,6 +146,8 @@ class SWorldMonitor:
         self.rwin = {}         # sid -> bytes left of the window the server advertised for this stream (revision one)
         self.send_failed = set()   # streams on which a handler's SendMsg returned an error
         self.sent = {}         # sid -> [complete messages sent by the raw client, bytes of current, size of current]
+        self.swin = {}         # sid -> what is left of the window the PEER advertised for responses (revision one)
+        self.spend = set()     # streams whose handler is inside SendMsg (no result yet)
 
     def feed(self, op, obs_line):
         v = []
@@ -305,6 +307,26 @@ class SWorldMonitor:
                         v.append(("C07", "cancel-not-released", f"stream {sid} still in the server table after its cancel frame"))
         if tunnel_err:
             self.returned = True
+        # ---- C05: a sender is blocked only while the window the peer advertised is used up ----
+        if op.startswith("s.frame") and kind == "new" and sid in self.table and self.meta.get(sid, {}).get("rev") == 1 and sid not in self.swin:
+            self.swin[sid] = int(k.get("win", "0"))
+        if op.startswith("s.frame") and kind == "wu" and sid in self.swin:
+            self.swin[sid] = (self.swin[sid] + int(k["n"])) % (1 << 32)     # the code's window is a uint32
+        for fsid, f in o["F"]:
+            if fsid in self.swin and (f.startswith("msg:") or f.startswith("more:")):
+                self.swin[fsid] -= int(f.split(":")[-1])
+        if op.startswith("s.call") and kind == "send":
+            self.spend.add(sid)
+        for dsid, dop, res in o["D"]:
+            if dop == "send":
+                self.spend.discard(dsid)
+        if not tunnel_err:
+            for psid in sorted(self.spend):
+                if psid in self.swin and psid in self.table and psid not in self.cancelled and psid not in self.handler_returned \
+                        and not any(s_ == psid and f.startswith("close:") for s_, f in o["F"]) and self.swin[psid] > 0:
+                    v.append(("C05", "sender-stranded", f"stream {psid}: the handler's SendMsg is still blocked at quiescence although {self.swin[psid]} bytes "
+                                                        f"of the window the peer granted are unused (after `{op[:60]}`)"))
+                    self.spend.discard(psid)
         # ---- per-stream call-shape enforcement (C16, server side) ----
         for dsid, dop, res in o["D"]:
             m = self.meta.get(dsid)
@@ -571,6 +593,12 @@ class CWorldMonitor:
                     if r["shape"] in ("U", "CS") and r.get("by_close") and r["close"][0] != 0:
                         v.append(("C02", "ok-result-for-failed-rpc", f"stream {dsid} ({r['shape']}): RecvMsg returned the response with a nil error "
                                                                      f"although the peer closed the RPC with code {r['close'][0]}: the status is lost"))
+                    if r["shape"] in ("U", "CS") and not r.get("by_close"):
+                        # ... and without any close frame it is "success with missing trailers": the RPC really ended by the
+                        # caller's cancel / deadline (or the tunnel's end) while the single response was already there
+                        why = "the tunnel ended" if self.finished else ("it was cancelled / timed out locally" if r["finished"] else "it is still open")
+                        v.append(("C07", "success-without-close", f"stream {dsid} ({r['shape']}): RecvMsg returned the response with a nil error although no close "
+                                                                  f"frame was ever received for the RPC ({why}): success without status or trailers"))
                     if r["msgs"] > r["complete"]:
                         v.append(("C01", "fabricated-response", f"stream {dsid}: caller obtained {r['msgs']} responses, peer completed {r['complete']}"))
                     if "CORRUPT" in res or "mixed" in res:
@@ -631,6 +659,21 @@ class CWorldMonitor:
                 r = self.rpcs.get(sid_)
                 if r and st["sent"] > self.peer_win + r["credit"]:
                     v.append(("C06", "sender-exceeds-window", f"stream {sid_}: {st['sent']} request bytes sent with window {self.peer_win} + credit {r['credit']}"))
+        # ---- C05: a caller's SendMsg is blocked only while the window the peer advertised is used up ----
+        if op.startswith("c.call") and kind == "send" and sid in self.rpcs:
+            self.rpcs[sid]["send_pending"] = True
+        for dsid, dop, res in o["D"]:
+            if dop == "send" and dsid in self.rpcs:
+                self.rpcs[dsid]["send_pending"] = False
+        if self.rev != 0 and not self.finished:
+            for sid_, r in self.rpcs.items():
+                st = self.wire.st.get(sid_)
+                if r.get("send_pending") and not r["finished"] and not r.get("invoke") and st is not None and sid_ in self.table:
+                    left = (self.peer_win + r["credit"] - st["sent"]) % (1 << 32)
+                    if left > 0 and self.peer_win + r["credit"] >= st["sent"]:
+                        v.append(("C05", "sender-stranded", f"stream {sid_}: the caller's SendMsg is still blocked at quiescence although {left} bytes of the "
+                                                            f"window the peer granted are unused (after `{op[:60]}`)"))
+                        r["send_pending"] = False
         # ---- C14: the client table holds exactly the RPCs in flight ----
         if o["T"] is not None and not self.blocked:
             # streams the client itself finished (deadline, protocol error) leave the table when it sends cancel
